@@ -202,6 +202,38 @@ func TestShapes(t *testing.T) {
 	}
 }
 
+// TestShapeGrid crosses dead-code snippets of many byte sizes with failing
+// tail statements whose erroring instruction sits at many distances from the
+// function's end (with and without a trailing jump to the end, with the failure
+// in the function itself or in a callee): instruction offsets shift by every
+// amount, so position bookkeeping that is off only for one layout is hit.
+func TestShapeGrid(t *testing.T) {
+	deads := []string{"a = a", "a = 1", "a = a + 1", "return", "return a", "return a + 1", "a = [a]", "a = [a, a, a]",
+		"a = {k: a}", "a += 2", "a = a * a + a", "g(a)", "a = g(a)", "for { a = 1 }", "for i := 0; i < a; i++ { a = i }",
+		"if a { a = 2 }", "if a { return 3 } else { return 4 }", "a = a ? 1 : 2", "a = a && a", "a = func() { return 1 }",
+		"a = \"0123456789\"", "a = a[1:2]", "a.x = 1", "a = a\n\t\ta = a\n\t\ta = a", "return [a, a][0]"}
+	tails := []string{"b := 10 / a", "b := [10 / a]", "b := 10 / a + 1", "b := 1 + 10 / a", "a()", "b := a()", "b := a(1, 2)",
+		"a.x = 1", "a.x.y = 1", "b := a.x", "b := a[0]", "b := [1, 2][a:a - 1]", "b := g(10 / a)", "g(10 / a)", "b := h(a)",
+		"h(a)", "b := [h(a)]", "b := h(a) + 1", "for x in a { }", "b := [a...]", "b := g(a...)", "b := -\"s\"", "b := a + \"s\" - 1",
+		"b := {k: 10 / a}", "b := true ? 10 / a : 0", "b := a || 10 / a"}
+	wraps := []string{"%s", "if a == 0 {\n\t\t%s\n\t}", "for k := 0; k < 1; k++ {\n\t\t%s\n\t}"}
+	n := 0
+	for _, d := range deads {
+		for _, tl := range tails {
+			for wi, w := range wraps {
+				if wi > 0 && (n+wi)%3 != 0 {
+					continue // a third of the wrapped variants, deterministically
+				}
+				src := "g := func(x) { return x }\nh := func(x) { return 10 / x }\nf := func(a) {\n\tif a > 5 {\n\t\treturn 1\n\t\t" + d +
+					"\n\t}\n\t" + fmt.Sprintf(w, tl) + "\n}\nout := f(0)\n"
+				check(t, "TestShapeGrid", payload{Source: src}, []string{"shape-grid"})
+				n++
+			}
+		}
+	}
+	ev.ClassN("shape-grid-cases", int64(n))
+}
+
 // ---------- replay / regressions ----------
 
 func replayFile(t *testing.T, path string) {
